@@ -250,17 +250,30 @@ def user_init_cp(cfg):
     return w, fs
 
 
+_SHARED_INIT = {}      # init_reuse: the SAME initialisation object handed to two consecutive calls
+
+
 def _init_arg(cfg, kind="cp"):
     if cfg["init"] != "user":
         return cfg["init"], None
     w, fs = user_init_cp(cfg)
+    if cfg.get("init_shared"):                         # symmetric start: every mode holds the SAME array object
+        fs = [fs[0]] * len(fs)
     if cfg.get("init_absorb") and w is not None:      # same tensor, weights absorbed into factor 0
         fs = [fs[0] * w.reshape(1, -1)] + fs[1:]
         w = None
-    arg = (None if w is None else w.copy(), [f.copy() for f in fs])
+    if cfg.get("init_reuse") and cfg["id"] in _SHARED_INIT:
+        return _SHARED_INIT[cfg["id"]], (w, fs)
+    if cfg.get("init_shared"):
+        A = fs[0].copy()
+        arg = (None if w is None else w.copy(), [A] * len(fs))
+    else:
+        arg = (None if w is None else w.copy(), [f.copy() for f in fs])
     if cfg.get("init_as") == "object":
         from tensorly.cp_tensor import CPTensor
         arg = CPTensor(arg)
+    if cfg.get("init_reuse"):
+        _SHARED_INIT[cfg["id"]] = arg
     return arg, (w, fs)
 
 
@@ -274,8 +287,15 @@ def run_alg(cfg, data, cap, with_cb=False):
     if tenalg_backend != "core":
         tl.tenalg.set_backend(tenalg_backend)
     try:
+        if cfg.get("init_reuse"):
+            # a first call with the same initialisation OBJECT (what a retry, a parameter sweep or a refit does);
+            # the run that is judged is the second one
+            _SHARED_INIT.pop(cfg["id"], None)
+            _run_alg(cfg, copy.deepcopy(data), 1, False, tl, D)
+            np.random.seed(cfg["seed"] % (2**31))
         return _run_alg(cfg, data, cap, with_cb, tl, D)
     finally:
+        _SHARED_INIT.pop(cfg.get("id"), None)
         if tenalg_backend != "core":
             tl.tenalg.set_backend("core")
 
@@ -422,10 +442,21 @@ def _run_alg(cfg, data, cap, with_cb, tl, D):
                 else:
                     fs.append(rng.random_sample((s, r)) + 0.1)
             rawinit = (core, fs)
-            init = (core.copy(), [f.copy() for f in fs])
+            if cfg.get("init_reuse") and cfg["id"] in _SHARED_INIT:
+                init = _SHARED_INIT[cfg["id"]]
+            else:
+                init = (core.copy(), [f.copy() for f in fs])
+                if cfg.get("init_as") == "object":
+                    from tensorly.tucker_tensor import TuckerTensor
+                    init = TuckerTensor(init)
+                if cfg.get("init_reuse"):
+                    _SHARED_INIT[cfg["id"]] = init
         out["rawinit"] = rawinit
         if alg == "tucker":
             kw = dict(n_iter_max=cap, init=init, tol=_tol(cfg), random_state=seed, return_errors=True)
+            if cfg.get("mask"):
+                # missing entries: the start is still exactly the supplied Tucker tensor
+                kw["mask"] = (_rng(seed + 99).random_sample(data.shape) > 0.2).astype(float)
             if cfg.get("fixed"):
                 kw["fixed_factors"] = list(cfg["fixed"])
                 kw.pop("return_errors")
@@ -1199,6 +1230,29 @@ def warm_configs(tier, seed):
     for dt, data in (("float32", "generic"), ("int64", "counts")):
         for fx in ([], [0], [2, 1]):
             add("tucker", shape=shape, rank=[2, 3, 2], data=data, data_dtype=dt, tol="zero", fixed=fx, caps=[0, 1, 2, 3])
+    # the same initialisation OBJECT handed to two consecutive calls (a retry, a sweep over options, a refit): the second
+    # call starts from the same tensor as the first; and a symmetric start whose modes hold the SAME array object
+    for alg, kw in (("parafac", {"data": "generic"}), ("nn_parafac", {"data": "nonneg", "init_kind": "nonneg", "tol": "tiny"}),
+                    ("nn_parafac_hals", {"data": "nonneg", "init_kind": "nonneg", "tol": "tiny"}),
+                    ("constrained_parafac", {"data": "nonneg", "init_kind": "nonneg", "constraints": {"non_negative": True}})):
+        for wk in ("positive", "none", "mixed" if alg == "parafac" else "ones"):
+            for init_as in ("tuple", "object"):
+                base = dict(shape=shape, rank=2, init_weights=wk, tol="zero", init_reuse=True, init_as=init_as, caps=[0, 1, 2])
+                base.update(kw)
+                add(alg, **base)
+        base = dict(shape=[4, 4, 4], rank=2, init_weights="positive", tol="zero", init_shared=True, caps=[0, 1, 2])
+        base.update(kw)
+        add(alg, **base)
+        # (all modes fixed: unit weights -- the documentation excludes fixing the last mode, and with every mode fixed there
+        #  is no free mode the non-unit weights could be folded into; see DESIGN.md section 12)
+        add(alg, **dict(base, fixed=[0, 1, 2], caps=[0, 2], init_weights="none"))
+    for init_as in ("tuple", "object"):
+        add("tucker", shape=shape, rank=[2, 3, 2], data="generic", tol="zero", init_reuse=True, init_as=init_as, caps=[0, 1, 2])
+    # missing entries (mask) with a user start: Tucker and CP
+    for fx in ([], [0], [2, 1]):
+        add("tucker", shape=shape, rank=[2, 2, 2], data="generic", tol="zero", mask=True, fixed=fx, caps=[0, 1, 2, 3])
+    for wk in ("none", "positive", "mixed"):
+        add("parafac", shape=shape, rank=2, data="generic", init_weights=wk, tol="zero", mask=True, caps=[0, 1, 2, 3])
     # fixed modes x line search: an accepted jump extrapolates EVERY factor; fixed ones must come out of it untouched
     # (the line search is active from the 7th sweep on; slowly converging noisy data makes the jumps accepted)
     for j, fx in enumerate(([0], [1], [2], [0, 2], [1, 0])):
